@@ -9,6 +9,7 @@ import (
 	"io"
 	"os"
 	"os/exec"
+	"path/filepath"
 	"testing"
 	"time"
 
@@ -107,6 +108,36 @@ func checkC19(c c19Case) string {
 			return fmt.Sprintf("%s output differs when the writers run in order %v instead of each alone", f, c.Order)
 		}
 	}
+	// 2b. the file-level helper: the file holds what the writer produces, whatever the path held before
+	if len(c.Order) > 0 && c.Order[0]%2 == 0 {
+		if dir, err := os.MkdirTemp("", "c19"); err == nil {
+			defer os.RemoveAll(dir)
+			restore := astisub.Now
+			astisub.Now = func() time.Time { return c19NowA }
+			for _, f := range writerFormats {
+				if bytes.HasPrefix(ref[f], []byte("ERR:")) {
+					continue
+				}
+				p := filepath.Join(dir, "out."+f)
+				stale := append(append([]byte(nil), ref[f]...), bytes.Repeat([]byte("stale tail of an older, longer file\n"), 40)...)
+				if os.WriteFile(p, stale, 0o644) != nil {
+					continue
+				}
+				for round := 0; round < 2; round++ {
+					if err := c.Spec.build().Write(p); err != nil {
+						astisub.Now = restore
+						return fmt.Sprintf("Write(%s) failed although the %s writer accepts the list: %v", filepath.Base(p), f, err)
+					}
+					b, _ := os.ReadFile(p)
+					if !bytes.Equal(b, ref[f]) {
+						astisub.Now = restore
+						return fmt.Sprintf("the file written by Write(%s) over an older, longer file (round %d) holds %d bytes, the %s writer produces %d: the result depends on what the path held before", filepath.Base(p), round, len(b), f, len(ref[f]))
+					}
+				}
+			}
+			astisub.Now = restore
+		}
+	}
 	// 3. the clock: only the STL dates may depend on it, and only when the metadata does not supply them
 	other, msg := writeAllAt(c.Spec.build(), c19NowB, nil)
 	if msg != "" {
@@ -195,7 +226,7 @@ func TestC19(t *testing.T) {
 	runWitnesses(t, "C19")
 	var batch []c19Case
 	rapidCheck(t, "C19/lists", tier(300, 20000), func(rt *rapid.T) {
-		c := c19Case{Spec: genGL(rt, false), Order: genPerm(rt, 5, "order")}
+		c := c19Case{Spec: genGLRaw(rt), Order: genPerm(rt, 5, "order")}
 		nt, ls := c19Labels(c.Spec)
 		ev.Case(nt, fmt.Sprintf("%v", c), ls...)
 		if nt && len(c.Spec.Cues) <= 2 {
